@@ -426,18 +426,23 @@ func c03Statistics(c *Ctx, s *c03Set) {
 			a.add(c03Centered(params.Q(), Canon(params.RingQ(), pt.Value, pt.IsNTT, false)))
 		}
 	}
-	sigU2 := float64(s.N) * s.sigS * s.sigS * s.kappa // E‖u‖², E‖s‖² (embedded)
+	sigU2 := float64(s.N) * s.sigS * s.sigS * s.kappa // E‖u‖² (embedded): u is drawn afresh by every encryption
+	// ‖s‖² of the secret that was ACTUALLY drawn for this set: s is fixed over the whole accumulator, and a
+	// sparse ternary Xs at a small N gives s = 0 (or weight 1) with a probability that is far from negligible
+	// (0.9^16 ≈ 18 % for T(P=0.1), N=16).  With s = 0 the pk-with-P noise r0 + r1·s is legitimately 0.
+	sS2 := c03ActualSecretNorm2(s)
 	nominal := map[string]float64{
 		"sk":    s.sigE,
 		"pkgen": s.sigE,
-		"pkNoP": s.sigE * math.Sqrt(2*sigU2+1),
-		"pkP":   math.Sqrt((1 + sigU2) / 12),
+		"pkNoP": s.sigE * math.Sqrt(sigU2+sS2+1),
+		"pkP":   math.Sqrt((1 + sS2) / 12),
 	}
 	if s.nP > 0 {
 		// (u·e_pk + e0 + e1·s)/p0 on top of the rounding noise (matters for a wide Xe)
 		p0 := float64(params.P()[0])
-		nominal["pkP"] = math.Sqrt((1+sigU2)/12 + s.sigE*s.sigE*(2*sigU2+1)/(p0*p0))
+		nominal["pkP"] = math.Sqrt((1+sS2)/12 + s.sigE*s.sigE*(sigU2+sS2+1)/(p0*p0))
 	}
+	atypicalSecret := sS2 < sigU2/4 || sS2 > 4*sigU2
 	declared := map[string]float64{
 		"sk":    params.NoiseFreshSK(),
 		"pkNoP": params.NoiseFreshPK(),
@@ -453,6 +458,12 @@ func c03Statistics(c *Ctx, s *c03Set) {
 			c.Count("noise_std:skipped(noise may wrap modulo q_0)")
 			continue
 		}
+		if path == "pkP" && sS2 <= s.kappa {
+			// s = 0: noise = round(e/P) = 0.  s = ±X^k: round((−a·s·u+e)/P) + round(a·u/P)·s = 0 as well, because
+			// multiplying by a monomial commutes with coefficient-wise rounding; the rounding noise needs weight ≥ 2.
+			c.Count("noise_std:skipped(the drawn secret has weight <= 1: pk-with-P noise is legitimately 0)")
+			continue
+		}
 		emp := a.std()
 		args := fmt.Sprintf("%s path=%s coeffs=%d seed=%d statistical-test", s.hdr, path, a.n, c.Seed)
 		detail := ""
@@ -461,6 +472,11 @@ func c03Statistics(c *Ctx, s *c03Set) {
 		}
 		c.Probe("noise_std", args, "C03-noise-std", detail)
 		if decl, has := declared[path]; has {
+			if path != "sk" && atypicalSecret {
+				// NoiseFreshPK() is stated for the expected secret weight; the drawn one is more than 4x away
+				c.Count("declared_std:skipped(drawn secret norm is atypical for Xs)")
+				continue
+			}
 			// NoiseFreshSK is the declared std of Xe itself: band 3.  NoiseFreshPK is a heuristic, (h+1)·σ² with
 			// h = XsHammingWeight(): it leaves out one of the two products (u·e_pk, e1·s) and, for a Gaussian
 			// secret, uses E‖s‖₁ where E‖s‖² belongs; it underestimates by up to ≈ 3.3 (observed), band 4.
@@ -534,6 +550,17 @@ func c03ProbeDecryptDeg7(c *Ctx, s *c03Set, ct *rlwe.Ciphertext) {
 	c.Count("dec:deg7-nonNTT")
 }
 
+// c03ActualSecretNorm2: ‖s‖² (times the embedding factor kappa) of the set's drawn secret key.
+func c03ActualSecretNorm2(s *c03Set) float64 {
+	rq := s.params.RingQ().AtLevel(0)
+	var n2 float64
+	for _, x := range c03Centered(s.params.Q()[:1], Canon(rq, s.sk.Value.Q, true, true)) {
+		f, _ := new(big.Float).SetInt(x).Float64()
+		n2 += f * f
+	}
+	return n2 * s.kappa
+}
+
 // c03DegeneracyNegligible: under the DECLARED distributions, are P(noise = 0) and P(noise = noise') below 2^-30 ?
 func c03DegeneracyNegligible(s *c03Set, path string) bool {
 	var zero, coll float64
@@ -542,16 +569,26 @@ func c03DegeneracyNegligible(s *c03Set, path string) bool {
 		coll = math.Min(1, 0.2821/sigma)
 	}
 	sigU2 := float64(s.N) * s.sigS * s.sigS * s.kappa
+	sS2 := c03ActualSecretNorm2(s) // the secret is fixed: its drawn norm, not its expected one, decides
 	switch path {
 	case "pkP":
-		gauss(math.Sqrt((1 + sigU2) / 12))
+		if sS2 <= s.kappa {
+			return false // weight ≤ 1: noise = round(e/P) = 0 legitimately (see c03Statistics)
+		}
+		gauss(math.Sqrt(sS2 / 12)) // the r1·s part alone: r0 + e/P only completes it to an integer
 	case "pkNoP":
-		gauss(s.sigE * math.Sqrt(2*sigU2+1))
+		gauss(s.sigE * math.Sqrt(sigU2+sS2+1))
 	default:
 		switch x := s.params.Xe().(type) {
 		case ring.Ternary:
 			if x.H != 0 {
-				return true // exactly H non-zero coefficients
+				// exactly H non-zero coefficients: never 0, but two draws coincide with probability
+				// 1/(C(N,H)·2^H), which is 1/32 for H = 1 at N = 16
+				lg := float64(x.H)
+				for i := 0; i < x.H; i++ {
+					lg += math.Log2(float64(s.N-i)) - math.Log2(float64(i+1))
+				}
+				return lg > 30
 			}
 			zero = 1 - x.P
 			coll = (1-x.P)*(1-x.P) + x.P*x.P/2
